@@ -84,39 +84,9 @@ Definition spec_wchk (s : sstate) : int :=
   fold_left (fun acc n => (acc + hadd (hN (hN 11%uint63 (fst (s_ref n))) (snd (s_ref n))) (Uint63.of_Z (weight_of chains (s_ref n))))%uint63)
             (ss_tree s) 0%uint63.
 
-(* which property a call's result is counted under *)
-Definition is_query (o : op) : bool :=
-  match o with
-  | OChain _ _ | OClosest _ _ | OCanonAt _ _ _ | OGetSlot _ | OInSub _ _ | OSearch _ _ _ _ | OBlock _ _ _ _ _ | OSlot _ _ _ _ => true
-  | _ => false
-  end.
-Definition is_head (o : op) : bool :=
-  match o with OHead | OFindHead _ _ | OAtt _ _ _ => true | _ => false end.
-Definition is_update (o : op) : bool :=
-  match o with OUpdate _ _ _ _ _ | OSetPin _ _ | OPin | OJust | OFin => true | _ => false end.
-
 (* first step (1-based) at which Go's observed result is not what the Spec demands, among the steps selected by [sel]
    (sel gets the operation and whether finalization has moved earlier in this history); 0 = none.
    Outside the domain, and after a sink failure, the Spec demands nothing. *)
-(* Shape of the known finding `prune_keeps_late_fork`: finalization moves to node a while some node that does not
-   descend from a was inserted after a (the tree list is in insertion order; only this predicate looks at the order). *)
-Fixpoint inserted_after (t : tree) (a : ref) (seen : bool) : list snode :=
-  match t with
-  | [] => []
-  | n :: t' => if ref_eqb (s_ref n) a then inserted_after t' a true
-               else if seen then n :: inserted_after t' a seen else inserted_after t' a seen
-  end.
-Definition late_fork_at (s : sstate) (o : op) : bool :=
-  match o with
-  | OUpdate trig j f bal _ =>
-      match spec_update_check s trig j f bal with
-      | UApplied (Some a) =>
-          known (ss_tree s) a && existsb (fun n => negb (is_desc (ss_tree s) a n)) (inserted_after (ss_tree s) a false)
-      | _ => false
-      end
-  | _ => false
-  end.
-
 Fixpoint spec_steps (sel : op -> bool -> bool) (sink_nil : bool) (k : N) (s : sstate) (b : binding) (moved late : bool)
          (steps : list step) : N * bool :=
   match steps with
@@ -153,9 +123,6 @@ Definition spec_first_bad (sel : op -> bool -> bool) (c : fcase) : N * bool :=
   | _ => (255, false)
   end.
 
-Definition sel_c11 (o : op) (moved : bool) : bool := is_query o.
-Definition sel_c09 (o : op) (moved : bool) : bool := is_head o.
-Definition sel_c10 (o : op) (moved : bool) : bool := is_update o || moved.
 
 (* mismatch code of a case: bit 1 = Go differs from the Impl model, bit 2 = Go differs from the Spec (in the domain);
    + 4 * (first step where the Impl differs) + 1024 * (first step where the Spec is violated), for the replay file;
